@@ -26,6 +26,12 @@ def run(ctx) -> None:
     ctx.guard("C14.no-partial", no_partial)
     ctx.guard("C14.instructions", instructions)
     ctx.guard("C14.execute-pairing", to_worklist)
+    # to_worklist executes through transfer(): on both devices the dispensed liquid carries the source well's composition
+    from . import c01
+    from .common import concrete_devices
+
+    for dev in concrete_devices(ctx):
+        ctx.reuse("C14.transfer-composition", c01.pair_transfer, dev)
 
 
 def _init(ctx, rule):
